@@ -153,6 +153,14 @@ pub fn judge(prog: &Program, d: Dialect, mo: ModernOpts, c: &mut Choices, st: &m
                 continue;
             }
             let entry = syms.iter().find(|(k, v)| is_hash_key(k) && *v == name && syms.contains_key(&format!("{k}_arguments")));
+            // the table maps code hash -> one name: a function whose code is position-only (an
+            // accessor such as (defun F (A B) B)) shares its hash with every other function of
+            // the same shape (typically a lambda) and may be listed under that other name
+            let accessor = prog.helpers.iter().any(|h| matches!(h, Helper::Defun { name: n, body: Expr::Var(_), .. } if n == name));
+            if entry.is_none() && accessor {
+                st.label("accessor-shares-its-code-hash(skip)");
+                continue;
+            }
             match entry {
                 None => return Err(Viol::new("reachable-function-has-no-entry", format!("an entry for {name}"), "none", case(json!({"function": name})))),
                 Some((k, _)) => {
